@@ -162,4 +162,19 @@ def bashExpr (p : Param) (nounset : Bool) (m : Str → Bool) : Op → Outcome
     | some e => { res := .ok (if hasPat then mapFields e (specRemove k m) else e) }
     | none => { res := .err }
 
+/-- `${!ref…}` in bash.  The reference must hold the text of a parameter (`none`: it is unset,
+empty or not a parameter name — "invalid indirect expansion" / "invalid variable name").  The
+operator then applies to that target exactly as if the target had been written in the braces —
+whatever the operator, the target's state and nounset; only a plain variable can be assigned
+through a reference. -/
+def bashExprInd (target : Option Param) (nounset : Bool) (m : Str → Bool) (op : Op) : Outcome :=
+  match target with
+  | none => { res := .err }
+  | some t =>
+    let o := bashExpr t nounset m op
+    match o.assigned, t with
+    | some _, .named _ => o
+    | some _, _ => { res := .err }
+    | none, _ => o
+
 end BrushVerif.ParamSpec
